@@ -36,6 +36,7 @@ type bInput struct {
 	Alg     string `json:"alg"`
 	Keycfg  string `json:"keycfg"`
 	Keytype string `json:"keytype"`
+	Doc     string `json:"doc"`
 }
 type bObs struct {
 	Built        bool   `json:"built"`
@@ -96,6 +97,10 @@ func relayFor(class string, rng *rand.Rand) string {
 }
 
 const idpQuery = "?foo=bar&x=1%202&tenant=a%26b"
+const idpFragment = "#/saml/login?next=1&SAMLRequest=zzz"
+
+func hasQuery(kind string) bool    { return kind == "query" || kind == "queryfragment" }
+func hasFragment(kind string) bool { return kind == "fragment" || kind == "queryfragment" }
 
 func bindingsSP(in *bInput) (*saml2.SAMLServiceProvider, string) {
 	ks := outboundKeys()
@@ -104,9 +109,18 @@ func bindingsSP(in *bInput) (*saml2.SAMLServiceProvider, string) {
 	sp.SPKeyStore = nil
 	sp.SignAuthnRequests = in.SignReq
 	sp.NameIdFormat = saml2.NameIdFormatTransient
-	if in.Idpurl == "query" {
+	if hasQuery(in.Idpurl) {
 		sp.IdentityProviderSSOURL += idpQuery
 		sp.IdentityProviderSLOURL += idpQuery
+	}
+	if hasFragment(in.Idpurl) {
+		sp.IdentityProviderSSOURL += idpFragment
+		sp.IdentityProviderSLOURL += idpFragment
+	}
+	if in.Doc == "builtCR" {
+		// caller strings whose serialised form differs between escaping styles
+		sp.ServiceProviderIssuer = "https://sp.example.com/meta\rdata\tx\ny "
+		sp.AssertionConsumerServiceURL = "https://sp.example.com/acs?a=1\tb\r"
 	}
 	ec := in.Keytype == "ec"
 	name := in.Keycfg
@@ -157,15 +171,18 @@ func analyseRedirect(in *bInput, sp *saml2.SAMLServiceProvider, u, relay string,
 	if in.Flow == "logoutReq" {
 		endpoint = sp.IdentityProviderSLOURL
 	}
-	wantBase := endpoint
-	if i := strings.Index(endpoint, "?"); i >= 0 {
-		wantBase = endpoint[:i]
+	cut := func(s, sep string) (string, string) {
+		if i := strings.Index(s, sep); i >= 0 {
+			return s[:i], s[i+1:]
+		}
+		return s, ""
 	}
-	base, rawq := u, ""
-	if i := strings.Index(u, "?"); i >= 0 {
-		base, rawq = u[:i], u[i+1:]
-	}
-	o.EndpointOK = base == wantBase
+	// RFC 3986: the fragment starts at the first '#', the query at the first '?' before it
+	wantBase, wantFrag := cut(endpoint, "#")
+	wantBase, _ = cut(wantBase, "?")
+	base, frag := cut(u, "#")
+	base, rawq := cut(base, "?")
+	o.EndpointOK = base == wantBase && frag == wantFrag
 	_, vals := splitRawQuery(rawq)
 	one := func(k string) (string, bool) {
 		v := vals[k]
@@ -175,7 +192,7 @@ func analyseRedirect(in *bInput, sp *saml2.SAMLServiceProvider, u, relay string,
 		return v[0], true
 	}
 	o.ParamsOK = true
-	if in.Idpurl == "query" {
+	if hasQuery(in.Idpurl) {
 		for k, want := range map[string]string{"foo": "bar", "x": "1 2", "tenant": "a&b"} {
 			v, ok := one(k)
 			dv, err := url.QueryUnescape(v)
@@ -196,6 +213,7 @@ func analyseRedirect(in *bInput, sp *saml2.SAMLServiceProvider, u, relay string,
 						o.RequestOK = d.ReadFromBytes(inflated) == nil && d.Root() != nil && d.Root().Tag == "AuthnRequest" &&
 							d.Root().SelectAttrValue("Destination", "") == sp.IdentityProviderSSOURL &&
 							d.Root().SelectAttrValue("AssertionConsumerServiceURL", "") == sp.AssertionConsumerServiceURL &&
+							d.Root().FindElement("./Issuer") != nil && d.Root().FindElement("./Issuer").Text() == sp.ServiceProviderIssuer &&
 							(d.Root().FindElement("./Signature") != nil) == in.SignReq
 					}
 				}
@@ -302,6 +320,8 @@ func analysePost(in *bInput, sp *saml2.SAMLServiceProvider, body []byte, relay s
 						d := etree.NewDocument()
 						o.FieldOK = d.ReadFromBytes(dec) == nil && d.Root() != nil && d.Root().Tag == "AuthnRequest" &&
 							d.Root().SelectAttrValue("Destination", "") == sp.IdentityProviderSSOURL &&
+							d.Root().SelectAttrValue("AssertionConsumerServiceURL", "") == sp.AssertionConsumerServiceURL &&
+							d.Root().FindElement("./Issuer") != nil && d.Root().FindElement("./Issuer").Text() == sp.ServiceProviderIssuer &&
 							(d.Root().FindElement("./Signature") != nil) == in.SignReq
 					}
 				}
@@ -328,13 +348,60 @@ func analysePost(in *bInput, sp *saml2.SAMLServiceProvider, body []byte, relay s
 	}
 }
 
+// callerDocument turns a library-built document into one a caller might hand in: its own prolog,
+// comments outside the root element, default write settings and an attribute whose value needs care.
+func callerDocument(doc *etree.Document) {
+	doc.WriteSettings = etree.WriteSettings{}
+	doc.Root().CreateAttr("xmlns:app", "urn:example:app")
+	doc.Root().CreateAttr("app:note", "tab\there cr\rlf\nend")
+	doc.InsertChildAt(0, etree.NewProcInst("xml", `version="1.0" encoding="UTF-8"`))
+	doc.InsertChildAt(1, etree.NewComment(" prepared by the application "))
+	doc.AddChild(etree.NewComment(" trailer "))
+}
+
+func (o *bObs) suspicious(in *bInput) bool {
+	if in.Binding == "redirect" {
+		return !(o.Built && o.EndpointOK && o.ParamsOK && o.RequestOK && (!o.RelayPresent || o.RelayOK))
+	}
+	return !(o.Built && o.Forms == 1 && o.ActionOK && o.FieldCount == 1 && o.FieldOK && (!o.RelayPresent || o.RelayOK) && o.ScriptSubmits && o.SkeletonOK)
+}
+
 func (Bindings) Run(c *orch.Case) *orch.Outcome {
 	var in bInput
 	if json.Unmarshal(c.Input, &in) != nil {
 		orch.Fatal("bindings: bad case")
 	}
 	rng := rand.New(rand.NewSource(c.Seed))
-	relay := relayFor(in.Relay, rng)
+	if in.Relay != "srcdict" {
+		o, replay := bindingsOne(&in, relayFor(in.Relay, rng))
+		return &orch.Outcome{Obs: o, Labels: []string{"relay=" + in.Relay}, Replay: replay}
+	}
+	// relay states equal to (or wrapped around) the string literals of the library's own source
+	lits := SourceLiterals()
+	if len(lits) == 0 {
+		orch.Fatal("bindings: no source literals found under the tree being checked")
+	}
+	pick := lits
+	if !(in.Idpurl == "noquery" && in.Doc == "built" && in.Alg == "unset" && in.Keycfg == "encField") {
+		pick = []string{lits[rng.Intn(len(lits))], lits[rng.Intn(len(lits))]}
+	}
+	var o *bObs
+	var replay map[string]any
+	for _, l := range pick {
+		rs := l
+		if rng.Intn(3) == 0 {
+			rs = "x " + l + " y"
+		}
+		o, replay = bindingsOne(&in, rs)
+		if o.suspicious(&in) {
+			break
+		}
+	}
+	return &orch.Outcome{Obs: o, Labels: []string{"relay=" + in.Relay}, Replay: replay}
+}
+
+func bindingsOne(inp *bInput, relay string) (*bObs, map[string]any) {
+	in := *inp
 	sp, _ := bindingsSP(&in)
 	o := &bObs{}
 	replay := map[string]any{"relay_state": relay}
@@ -370,6 +437,9 @@ func (Bindings) Run(c *orch.Case) *orch.Outcome {
 			return
 		}
 		var docBytes []byte
+		if doc != nil && in.Doc == "caller" {
+			callerDocument(doc)
+		}
 		if doc != nil {
 			s, _ := doc.WriteToString()
 			docBytes = []byte(s)
@@ -430,7 +500,7 @@ func (Bindings) Run(c *orch.Case) *orch.Outcome {
 		twin, _ := post(benign)
 		analysePost(&in, sp, body, relay, docBytes, twin, o)
 	}()
-	return &orch.Outcome{Obs: o, Labels: []string{"relay=" + in.Relay}, Replay: replay}
+	return o, replay
 }
 
 func (Bindings) Corrupt(c *orch.Case, o *orch.Outcome) (any, string, bool) {
